@@ -110,7 +110,8 @@ class World:
         ruids = list(range(self.next_ruid, self.next_ruid + n_rdm))
         self.next_ruid += n_rdm
         for r in ruids:
-            self.rdesc[r] = {'sess': ['s1', 's2'][r % 2], 'w': float(r) / 2}
+            # session labels of different lengths: a fixed-width string array must not clip a longer label appended later
+            self.rdesc[r] = {'sess': ['s1', 's2', 's10', 'session_11'][r % 4], 'w': float(r) / 2}
             for a, b in itertools.combinations(self.puid, 2):
                 v = float(r * 10000 + min(a, b) * 100 + max(a, b))
                 if self.nan_source and self.rng.integers(12) == 0:
@@ -122,6 +123,8 @@ class World:
         n = len(conds)
         iu = np.triu_indices(n, 1)
         vec = np.array([[self.value(r, conds[i], conds[j]) for i, j in zip(iu[0], iu[1])] for r in ruids])
+        if not np.isnan(vec).any() and self.rng.integers(4) == 0:
+            vec = vec.astype(np.int64)          # the id-coded values are whole numbers: stored in an integer array
         obj = RDMs(vec, dissimilarity_measure='euclidean', descriptors={'exp': 'e1'},
                    rdm_descriptors={'ruid': gen.wrap(ruids, self.cont),
                                     'sess': gen.wrap([self.rdesc[r]['sess'] for r in ruids], self.cont),
